@@ -44,7 +44,8 @@ LATTICE = "the token lattice is computed by the harness from the real recognizer
 def c04(replay_case=None):
     return run(
         "C04",
-        select=lambda c: c["built"] and c["consume"],
+        # (grammars with lexically overlapping terminals are in the corpus for C08 only: LR scanning picks one token there, C07's subject)
+        select=lambda c: c["built"] and c["consume"] and not c.get("overlap"),
         clause_ok=lambda cl, c: cl.startswith("C04:"),
         nontrivial=lambda c: c["flags"]["sentence"] or (c["flags"]["exact"] and c["flags"]["lvp"] >= 1),
         rule="cases = Parser(build_tree=True) under (tables, prefer_shifts, prefer_shifts_over_empty) in {LALR 00, LALR 11, LALR 01, SLR 00} whenever it constructs, "
@@ -96,7 +97,7 @@ def c08(replay_case=None):
 def c10(replay_case=None):
     return run(
         "C10",
-        select=lambda c: c["consume"] and not c["flags"]["sentence"],
+        select=lambda c: c["consume"] and not c["flags"]["sentence"] and not c.get("overlap"),
         clause_ok=lambda cl, c: cl.startswith("C10:"),
         nontrivial=lambda c: c["flags"]["lvp"] >= 1 or len(c["input"]) == 0,
         rule="cases = every non-sentence of the LR corpus (all inputs <= n tokens incl. the empty string, inputs ending in layout, multi-line inputs, junk "
